@@ -3,7 +3,7 @@ from lib import engine, demos, native
 from lib.core import tier
 from units import k26_knob
 
-LEVEL = "other"
+LEVEL = "proof"
 EXPLANATION = (
     "PROVED by CBMC under the contract of tbb::global_control (active value = minimum over live control objects, "
     "made executable in stubs/knob/prelude.hpp): set_global_tbb_concurrency, included VERBATIM through the C++ front "
